@@ -133,5 +133,5 @@ def gen_textin_consts():
     if path.exists() and path.read_text() == body:
         return False
     path.parent.mkdir(parents=True, exist_ok=True)
-    path.write_text(body)
+    vlib.atomic_write(path, body)
     return True
